@@ -21,47 +21,75 @@ void h_ct_sha256_write(void) {
     if (len == 0) REACH("sha256_write: empty write");
 }
 
+/* finalize: the byte counter is public.  h_ct_sha256_finalize keeps it fully symbolic (expensive: the
+ * memcpy lengths are symbolic); h_ct_sha256_finalize_res enumerates the 64 residues with concrete
+ * counters 0..63 (cheap stand-in for the quick tier). */
 void h_ct_sha256_finalize(void) {
     INPUT(secp256k1_sha256, f1); INPUT(secp256k1_sha256, f2);
     INPUT(uint64_t, bytes);
     unsigned char o1[32], o2[32];
     secp256k1_hash_ctx hc;
+    int differ;
     CT_CANARY()
     hc.fn_sha256_compression = secp256k1_sha256_transform;
     __CPROVER_assume(bytes < ((uint64_t)1 << 60));
     f1.bytes = bytes; f2.bytes = bytes;
+    differ = f1.s[0] != f2.s[0] && f1.buf[0] != f2.buf[0];
     CT2("C06 sha256_finalize: branch trace independent of chaining state and buffer (public counter)",
         secp256k1_sha256_finalize(&hc, &f1, o1), secp256k1_sha256_finalize(&hc, &f2, o2));
-    if ((bytes & 63) == 60 && f1.s[0] != f2.s[0]) REACH("sha256_finalize: padding spills into a second block");
+    if ((bytes & 63) == 60 && differ) REACH("sha256_finalize: padding spills into a second block");
     if ((bytes & 63) == 3) REACH("sha256_finalize: single padding block");
 }
 
+void h_ct_sha256_finalize_res(void) {
+    INPUT(secp256k1_sha256, r1); INPUT(secp256k1_sha256, r2);
+    unsigned char o1[32], o2[32];
+    secp256k1_hash_ctx hc;
+    unsigned lo; int differ;
+    CT_CANARY()
+    hc.fn_sha256_compression = secp256k1_sha256_transform;
+    differ = r1.s[0] != r2.s[0] && r1.buf[0] != r2.buf[0];
+    for (lo = 0; lo < 64; lo++) {
+        secp256k1_sha256 x = r1, y = r2;
+        x.bytes = lo; y.bytes = lo;
+        CT2("C06 sha256_finalize (counter 0..63): branch trace independent of chaining state and buffer",
+            secp256k1_sha256_finalize(&hc, &x, o1), secp256k1_sha256_finalize(&hc, &y, o2));
+        __CPROVER_assert(ct_n1 > 64, "C06 sha256_finalize (counter 0..63): the recorded trace covers at least one compression");
+    }
+    if (differ) REACH("sha256_finalize: all 64 residues done, different states");
+}
+
+/* HMAC and the RFC6979 generator: all lengths are PUBLIC constants at every call site in src/ (hmac keys
+ * are 32 bytes inside rfc6979; rfc6979 key material is 64 bytes in ecmult_gen_blind and 64/80/96/112 in
+ * the nonce functions), so the harness uses concrete lengths; KEYLEN selects the rfc6979 one. */
 void h_ct_hmac(void) {
     INPUT_ARR(unsigned char, hk1, 128); INPUT_ARR(unsigned char, hk2, 128);
     INPUT_ARR(unsigned char, hm1, 32); INPUT_ARR(unsigned char, hm2, 32);
-    INPUT(size_t, keylen);
     secp256k1_hmac_sha256 h1, h2; unsigned char o1[32], o2[32];
     secp256k1_hash_ctx hc;
     CT_CANARY()
     hc.fn_sha256_compression = secp256k1_sha256_transform;
-    __CPROVER_assume(keylen <= 128);   /* public */
-    CT2("C06 hmac_sha256 initialize/write/finalize: branch trace independent of key and message (public lengths)",
-        (secp256k1_hmac_sha256_initialize(&hc, &h1, hk1, keylen), secp256k1_hmac_sha256_write(&hc, &h1, hm1, 32), secp256k1_hmac_sha256_finalize(&hc, &h1, o1)),
-        (secp256k1_hmac_sha256_initialize(&hc, &h2, hk2, keylen), secp256k1_hmac_sha256_write(&hc, &h2, hm2, 32), secp256k1_hmac_sha256_finalize(&hc, &h2, o2)));
-    if (keylen == 32 && hk1[0] != hk2[0]) REACH("hmac with a short key");
-    if (keylen == 100) REACH("hmac with a key longer than a block");
+    CT2("C06 hmac_sha256 initialize/write/finalize, 32-byte key: branch trace independent of key and message",
+        (secp256k1_hmac_sha256_initialize(&hc, &h1, hk1, 32), secp256k1_hmac_sha256_write(&hc, &h1, hm1, 32), secp256k1_hmac_sha256_finalize(&hc, &h1, o1)),
+        (secp256k1_hmac_sha256_initialize(&hc, &h2, hk2, 32), secp256k1_hmac_sha256_write(&hc, &h2, hm2, 32), secp256k1_hmac_sha256_finalize(&hc, &h2, o2)));
+    if (hk1[0] != hk2[0] && hm1[0] != hm2[0]) REACH("hmac with a short key");
+    CT2("C06 hmac_sha256 initialize/write/finalize, 100-byte key (hashed first): branch trace independent of key and message",
+        (secp256k1_hmac_sha256_initialize(&hc, &h1, hk1, 100), secp256k1_hmac_sha256_write(&hc, &h1, hm1, 32), secp256k1_hmac_sha256_finalize(&hc, &h1, o1)),
+        (secp256k1_hmac_sha256_initialize(&hc, &h2, hk2, 100), secp256k1_hmac_sha256_write(&hc, &h2, hm2, 32), secp256k1_hmac_sha256_finalize(&hc, &h2, o2)));
+    REACH("hmac with a key longer than a block");
 }
 
+#ifndef KEYLEN
+#define KEYLEN 64
+#endif
 void h_ct_rfc6979(void) {
     INPUT_ARR(unsigned char, rk1, 128); INPUT_ARR(unsigned char, rk2, 128);
-    INPUT(size_t, keylen);
     secp256k1_rfc6979_hmac_sha256 r1, r2; unsigned char o1[32], o2[32];
     secp256k1_hash_ctx hc;
     CT_CANARY()
     hc.fn_sha256_compression = secp256k1_sha256_transform;
-    __CPROVER_assume(keylen <= 128);   /* public: 64 (ecmult_gen_blind), up to 32+32+32+16 (nonce function) */
     CT2("C06 rfc6979 initialize + two generate(32) calls: branch trace independent of the key material (public lengths)",
-        (secp256k1_rfc6979_hmac_sha256_initialize(&hc, &r1, rk1, keylen), secp256k1_rfc6979_hmac_sha256_generate(&hc, &r1, o1, 32), secp256k1_rfc6979_hmac_sha256_generate(&hc, &r1, o1, 32)),
-        (secp256k1_rfc6979_hmac_sha256_initialize(&hc, &r2, rk2, keylen), secp256k1_rfc6979_hmac_sha256_generate(&hc, &r2, o2, 32), secp256k1_rfc6979_hmac_sha256_generate(&hc, &r2, o2, 32)));
-    if (keylen == 112 && rk1[0] != rk2[0]) REACH("rfc6979 with 112 bytes of key material");
+        (secp256k1_rfc6979_hmac_sha256_initialize(&hc, &r1, rk1, KEYLEN), secp256k1_rfc6979_hmac_sha256_generate(&hc, &r1, o1, 32), secp256k1_rfc6979_hmac_sha256_generate(&hc, &r1, o1, 32)),
+        (secp256k1_rfc6979_hmac_sha256_initialize(&hc, &r2, rk2, KEYLEN), secp256k1_rfc6979_hmac_sha256_generate(&hc, &r2, o2, 32), secp256k1_rfc6979_hmac_sha256_generate(&hc, &r2, o2, 32)));
+    if (rk1[0] != rk2[0]) REACH("rfc6979 with different key material");
 }
